@@ -254,6 +254,77 @@ theorem claims_disabled_full_only_any_controller (e : Env) (ctrl : Bool) (p : Po
   · exact h
   · exact absurd (key o h).1 hne
 
+/-! ### histories of one position: the stake start time is immutable -/
+
+/-- **A claim keeps the stake start time** (and the staked amount and value): `claim_gt` only advances the cost-integral
+snapshot to the checkpoint; so every later reward is averaged over the APY gradient since the ORIGINAL stake time. -/
+theorem claim_keeps_stake_start {e : Env} {p p' : Pos} {r : Nat} (h : claimGt e p = some (r, p')) :
+    p'.start = p.start ∧ p'.amount = p.amount ∧ p'.value = p.value ∧ computeReward e p = some (r, p'.cum) := by
+  unfold claimGt at h
+  split at h; · cases h
+  cases hc : computeReward e p with
+  | none => simp [hc] at h
+  | some rc =>
+    obtain ⟨r0, c0⟩ := rc
+    simp [hc] at h
+    obtain ⟨rfl, rfl⟩ := h
+    exact ⟨rfl, rfl, rfl, rfl⟩
+
+/-- a partial unstake keeps it too (a full exit closes the position). -/
+theorem unstake_keeps_stake_start {e : Env} {p q : Pos} {vault un : Nat} {o : UnstakeOut}
+    (h : unstakeLp e p vault un = some o) (hq : o.pos = some q) : q.start = p.start := by
+  obtain ⟨_, _, hfull, hpart, _⟩ := unstake_lp_spec h
+  cases hf : o.fullExit with
+  | true => rw [(hfull hf).2] at hq; cases hq
+  | false =>
+    obtain ⟨_, q', hq', _, _, hs, _⟩ := hpart hf
+    rw [hq'] at hq; cases hq; exact hs
+
+/-- **Over every history** of claims and unstakes of one position (any clock advances, any cost integrals, failed
+instructions included): while the position exists its stake start time is the original one. -/
+theorem chain_keeps_stake_start (steps : List (Nat × Nat × ChainOp)) (c : ChainSt) (s0 : Int)
+    (h0 : ∀ p, c.pos = some p → p.start = s0) :
+    ∀ q, (runChain c steps).1.pos = some q → q.start = s0 := by
+  induction steps generalizing c with
+  | nil => exact h0
+  | cons st rest ih =>
+    obtain ⟨dt, dcum, op⟩ := st
+    simp only [runChain]
+    apply ih
+    intro p hp
+    unfold chainStep at hp
+    cases hc : c.pos with
+    | none => simp [hc] at hp
+    | some p0 =>
+      have hs := h0 p0 hc
+      simp only [hc] at hp
+      cases op with
+      | claim =>
+        simp only at hp
+        cases hcl : claimGt { c.e with now := c.e.now + dt, cumNow := c.e.cumNow + dcum } p0 with
+        | none => simp [hcl] at hp; rw [← hp]; exact hs
+        | some rp =>
+          obtain ⟨r, p'⟩ := rp
+          simp [hcl] at hp
+          rw [← hp, (claim_keeps_stake_start hcl).1]; exact hs
+      | unstake a =>
+        simp only at hp
+        cases hu : unstakeLp { c.e with now := c.e.now + dt, cumNow := c.e.cumNow + dcum } p0 c.vault a with
+        | none => simp [hu] at hp; rw [← hp]; exact hs
+        | some o =>
+          simp [hu] at hp
+          rw [unstake_keeps_stake_start hu hp]; exact hs
+
+/-- … hence the reward of every successful claim in a history is `computeReward` of a position that still carries the
+ORIGINAL stake time: the APY average runs over `[original start, checkpoint]`, not from the previous claim. -/
+theorem chain_claim_uses_original_start (steps : List (Nat × Nat × ChainOp)) (c : ChainSt) (s0 : Int)
+    (h0 : ∀ p, c.pos = some p → p.start = s0) (e : Env) (p p' : Pos) (r : Nat)
+    (hp : (runChain c steps).1.pos = some p) (h : claimGt e p = some (r, p')) :
+    p.start = s0 ∧ p'.start = s0 ∧ computeReward e p = some (r, p'.cum) := by
+  have hs := chain_keeps_stake_start steps c s0 h0 p hp
+  obtain ⟨h1, _, _, h4⟩ := claim_keeps_stake_start h
+  exact ⟨hs, by rw [h1]; exact hs, h4⟩
+
 /-! ### Non-vacuity -/
 private def g1 : Nat → Nat := fun i => if i = 0 then 100 else if i = 1 then 40 else if i < 52 then 10 else 7
 example : twApy 1000 (1000 + 604800 + 302400) g1 = some 80 := by decide
@@ -288,5 +359,13 @@ example : (unstakeLp ⟨false, 50 * 10 ^ 20, false, 1500, 5, 7, 2000, g1⟩ ⟨1
     (fun o => (o.transfer, o.fullExit, o.pos.isNone)) = some (1003, true, true) := by decide
 example : unstakeLp ⟨false, 50 * 10 ^ 20, false, 1500, 5, 7, 2000, g1⟩ ⟨1000, 100 * 10 ^ 20, 1000, 3⟩ 1003 400 = none ∧
     unstakeLp ⟨false, 50 * 10 ^ 20, true, 0, 0, 7, 2000, g1⟩ ⟨1000, 100 * 10 ^ 20, 1000, 3⟩ 1003 400 = none := by decide
+
+-- histories: stake at 1000, claim after 2 weeks, claim 1 week later, partial unstake: the start stays 1000 and the rewards are
+-- those of the window since 1000 (non-flat gradient g1)
+private def chainDemo : ChainSt × List (Option Nat) :=
+  runChain ⟨⟨true, 0, true, 0, 0, 3, 1000, g1⟩, some ⟨1000, 100 * 10 ^ 20, 1000, 3⟩, 1003⟩
+    [(2 * 604800, 5 * 10 ^ 22, ChainOp.claim), (604800, 5 * 10 ^ 22, ChainOp.claim), (10, 0, ChainOp.unstake 400)]
+example : chainDemo.1.pos.map (fun q => (q.start, q.amount)) = some (1000, 600) ∧ chainDemo.2.all (·.isSome) = true ∧
+    chainDemo.1.vault = 603 := by decide
 
 end Gmx.C38
